@@ -184,6 +184,9 @@ def match_delivered(delivered, oracle_msgs: dict) -> list[int]:
     return out
 
 
+SESSIONS = [0]
+
+
 def receive_session(kind: str, packets, chunks: list[bytes], recv_cb="ok", client_kwargs: dict | None = None,
                     sample_after: bool = True, sample_held: bool = False, gap: float = 5.0, register: str = "first",
                     relink_before: int | None = None):
@@ -219,8 +222,11 @@ def receive_session(kind: str, packets, chunks: list[bytes], recv_cb="ok", clien
                         held.append(held_bytes(s.client))
                 s.at_time(1.0 + gap * i + gap - 0.1, sample)
 
+    # every third session: a second client of the same kind lives in the process and is fed the same packets in 7-byte pieces
+    SESSIONS[0] += 1
+    by = (kind, b"".join(p for p, lab in packets if lab == "valid")[:400]) if SESSIONS[0] % 3 == 0 else None
     events = sess.run(vloop.make_client_factory(kind, **client_kwargs), scenario, until=1.0 + gap * len(chunks) + 2.0,
-                      recv_cb=recv_cb, register="first" if register == "first" else "scenario")
+                      recv_cb=recv_cb, register="first" if register == "first" else "scenario", bystander=by)
     toks, omsgs = oracle_tokens(kind, packets, client_kwargs)
     end = events[-1]
     return {"disc": DISC[kind], "chunks": [list(c) for c in chunks], "packets": [list(p) for p, _ in packets],
